@@ -47,6 +47,11 @@ CLAIMED = {
   "text": "Partial (last sentence of the property only): Storage::update_block_number, which raises every registered script's recorded block number, is reached in BlockFiltersProcess::execute only when no matched-block record is stored (idle branch) or after a verified batch with no match while no matched block is waiting for download; proved for every message and state by gate-by-precondition on the real handler text.",
   "note": "Storage::update_filter_scripts (set semantics, rewind rule, discarding pending blocks) is not under contract in this revision.",
   "ref": "DESIGN.md 5-C09"},
+
+ "C15": {
+  "text": "Contracts on the real text of build_prove_request_content, build_prove_request_content_from_genesis (mod.rs) and multiply, FlyClientPDF::{new, random_sample, sampling}, estimate_samples_count, sample_blocks (sampling.rs): a request is built iff the start is strictly below the last block in number and not above it in total difficulty; the built request names that start (or, when at most last-N blocks are missing, a remembered last-N header strictly below it that is still within last-N of the last block), asks for no samples and boundary = start difficulty in that case, and otherwise carries a boundary with start < boundary <= last and strictly increasing (hence unique) sampled difficulties below the boundary; multiply equals max(1, floor(u * num / 10^9)) without U512 overflow.",
+  "note": "Floats are uninterpreted (Verus has no f64 theory): the sample-count bound is NOT decided. Known finding S7 (sample == start for an empty interval) listed in known_findings.txt.",
+  "ref": "DESIGN.md 5-C15"},
 }
 
 NOT_APPLICABLE = {
